@@ -156,7 +156,7 @@ Fixpoint figure_pages (ctx : option (list str)) (d : doc) (fg : figure) (figs : 
                | None => Ok []
                end);
     do more <- figure_pages ctx d fg rest (S i) n;
-    Ok ((title ++ subl ++ [pic] ++ fn ++ src ++ (if last then [] else [IPage])) :: more)
+    Ok ((title ++ subl ++ [pic] ++ fn ++ src ++ (if last then [] else [IBreak (geom_of pg)])) :: more)
   end.
 
 (* pages of the document body, as lists of items *)
